@@ -35,6 +35,9 @@ func GenStore(seed uint64, prop string, idx int) *StoreSpec {
 		if len(p.Blocks) > 2 {
 			p.Blocks = p.Blocks[:2]
 		}
+		if r.Bool(0.2) {
+			g.widen(&p)
+		}
 		sp := StorePlan{Shape: p, Meta: r.Intn(3), Keys: r.Bool(0.4), SubmitMs: int64(i)*977 + int64(r.Intn(900))}
 		if r.Bool(0.15) {
 			sp.Status = Pick(r, []int{StRunning, StCompleted, StFailed})
